@@ -69,7 +69,8 @@ def g_server_call(rng, sess, retired):
         return {"k": "extendedResponse", "name": None if name is None else C.tx(name), "value": rng.choice([None, "01"]), "code": code,
                 "mdn": C.tx(""), "diag": C.tx(""), **base}
     if r < 0.6:
-        return {"k": "entry", "name": C.tx("cn=x"), "attrs": [{"name": C.tx("cn"), "vals": ["78"]}] if rng.random() < 0.5 else [], **base}
+        return {"k": "entry", "name": C.tx("cn=x"), "attrs": [{"name": C.tx("cn"), "vals": [rng.choice(["78", "62", "", "7a"]) for _ in range(rng.choice([1, 2, 3]))]}]
+                if rng.random() < 0.5 else [], **base}
     if r < 0.7:
         return {"k": "reference", "uris": [C.tx("ldap://a")], **base}
     if r < 0.92:
